@@ -95,6 +95,9 @@ pub fn witness(cfg: &TreeCfg, sched: &[Feed], env: &Env) -> String {
     if !env.inject.is_empty() {
         s.push_str(&format!(" inject={:?}", env.inject));
     }
+    if !env.detach_role.is_empty() {
+        s.push_str(&format!(" detach_role={:?}", env.detach_role));
+    }
     s
 }
 
@@ -177,17 +180,41 @@ pub fn judge(prop: Prop, cfg: &TreeCfg, out: &Result<TreeOut, String>) -> Option
 pub fn explore(ctx: &Ctx, prop: Prop, job: &Job, env: &Env, stats: &Stats, max_secs: f64) -> BfsOut {
     let lex = &job.sigma;
     let bcfg = BfsCfg { max_depth: job.depth, max_states: 80_000_000, max_secs };
-    let run = |h: &[u16]| -> (Result<TreeOut, String>, Vec<Feed>) {
-        let sched = sched_of(lex, &job.prefix, h);
-        let r = guarded(|| run_tree(&job.cfg, &sched, env, true));
-        (r, sched)
+    let has_roles = lex.iter().any(|l| l.starts_with('@'));
+    let env_of = |h: &[u16]| -> Option<(Env, Vec<Feed>)> {
+        if !has_roles {
+            return Some((env.clone(), sched_of(lex, &job.prefix, h)));
+        }
+        let mut e = env.clone();
+        let mut sched: Vec<Feed> = job.prefix.iter().map(|s| Feed::Chunk(s.to_string())).collect();
+        for &s in h {
+            let l = lex[s as usize];
+            if let Some(role) = l.strip_prefix('@') {
+                if sched.is_empty() {
+                    return None;
+                }
+                e.detach_role.push((sched.len() - 1, role.parse().unwrap()));
+            } else {
+                sched.push(Feed::Chunk(l.to_string()));
+            }
+        }
+        Some((e, sched))
+    };
+    let run = |h: &[u16]| -> (Result<TreeOut, String>, Vec<Feed>, Env) {
+        match env_of(h) {
+            None => (Err("disabled".into()), vec![], env.clone()),
+            Some((e, sched)) => {
+                let r = guarded(|| run_tree(&job.cfg, &sched, &e, true));
+                (r, sched, e)
+            },
+        }
     };
     let key_of = |o: &TreeOut| -> u128 {
         // state before end(): tree-builder dump + DOM as it was... the final DOM
         // (after end) is a function of that state, so it is not part of the key
         digest(&(&o.tb_key, &o.pre_end_dom, &o.tok_key))
     };
-    let (r0, _) = run(&[]);
+    let (r0, _, _) = run(&[]);
     let root = match &r0 {
         Ok(o) => key_of(o),
         Err(_) => 0,
@@ -199,7 +226,19 @@ pub fn explore(ctx: &Ctx, prop: Prop, job: &Job, env: &Env, stats: &Stats, max_s
         |h, s| {
             let mut nh = h.to_vec();
             nh.push(s);
-            let (r, sched) = run(&nh);
+            if has_roles && env_of(&nh).is_none() {
+                return Step::Disabled;
+            }
+            let (r, sched, env) = run(&nh);
+            let env = &env;
+            if has_roles && lex[s as usize].starts_with('@') {
+                // a script action that detached nothing is not a transition
+                if let Ok(o) = &r {
+                    if o.role_detached.last() != Some(&true) {
+                        return Step::Disabled;
+                    }
+                }
+            }
             stats.execs.fetch_add(1, Ordering::Relaxed);
             if let Some((kind, msg)) = judge(prop, &job.cfg, &r) {
                 ctx.violation(&kind, &witness(&job.cfg, &sched, env), json!({"message": msg, "job": job.name, "input": render(lex, &nh)}));
@@ -280,6 +319,8 @@ pub fn mode_witnesses() -> Vec<Vec<&'static str>> {
         vec!["<select>"],
         vec!["<select>", "<option>"],
         vec!["<select>", "<button>", "<selectedcontent>", "</selectedcontent>", "</button>", "<option selected>", "x", "<b>", "y"],
+        vec!["<select>", "<button>", "<div>", "<selectedcontent>", "</selectedcontent>", "</div>", "<selectedcontent>", "</selectedcontent>", "</button>", "<option selected>", "x"],
+        vec!["<select>", "<div>", "<span>", "<selectedcontent>", "</selectedcontent>", "</span>", "<selectedcontent>", "</selectedcontent>", "</div>", "<option selected>", "x", "<i>", "y"],
         vec!["<pre>"],
         vec!["<b>", "<p>"],
         vec!["<a>", "<table>"],
@@ -321,6 +362,17 @@ pub fn themed() -> Vec<(&'static str, Vec<&'static str>)> {
         ("pre-lf", vec!["<pre>", "<listing>", "<textarea>", "\n", "x", "</>", "</pre>", "</textarea>", "<!--c-->", "\r\n", "<b>", "\0"]),
         ("select", vec!["<select>", "</select>", "<option>", "<option selected>", "</option>", "<optgroup>", "<selectedcontent>", "</selectedcontent>", "<button>", "</button>", "<hr>", "<input>", "x", "<b>", "<select multiple>", "<div>", "<table>", "<template>"]),
     ]
+}
+
+/// C18: builder-internal pointers x script detaches as BFS symbols ("@<role>")
+pub fn pointer_job(tier: Tier) -> Job {
+    Job {
+        name: "J4/pointers+script-detach".into(),
+        cfg: TreeCfg::default(),
+        prefix: vec![],
+        sigma: vec!["<form>", "</form>", "<div>", "</div>", "<template>", "</template>", "<input>", "<p>", "<b>", "</p>", "x", "</head>", "<title>", "<table>", "<a>", "@0", "@1", "@2", "@3", "@4"],
+        depth: tier.pick(6, 8),
+    }
 }
 
 pub fn jobs(tier: Tier, full: bool) -> Vec<Job> {
@@ -373,6 +425,9 @@ pub fn main(ctx: &Ctx, prop: Prop) -> ! {
         }
     }
     js.retain(|j| j.depth > 0);
+    if prop == Prop::C18 {
+        js.push(pointer_job(ctx.tier));
+    }
     let (mut states, mut transitions, mut maxd) = (0u64, 0u64, 0usize);
     let mut closed_all = true;
     let mut jobrep = vec![];
@@ -401,6 +456,10 @@ pub fn main(ctx: &Ctx, prop: Prop) -> ! {
     }
     if prop == Prop::C04 {
         crate::c04::extra(ctx, &stats);
+    }
+    let mut xml_runs = 0u64;
+    if prop == Prop::C04 || prop == Prop::C05 {
+        xml_runs = crate::c04::xml_jobs(ctx, prop, &stats);
     }
     let mut direct = (0u64, 0u64, true, 0usize);
     if prop == Prop::C20 {
@@ -433,6 +492,7 @@ pub fn main(ctx: &Ctx, prop: Prop) -> ! {
             "jobs": jobrep,
             "nodes_collected_by_simulated_gc": stats.collected.load(Ordering::Relaxed),
             "detach_deviation_runs": detach_runs,
+            "xml5ever_runs": xml_runs,
             "direct_sequences": {"states": direct.0, "transitions": direct.1, "complete_to_depth": direct.2, "depth": direct.3},
             "samples": samples,
         }),
@@ -470,14 +530,23 @@ pub fn parse_tree_witness(w: &str) -> (TreeCfg, Vec<Feed>, Env) {
     let fake = format!("start=Data last=None cdata=false exact=false bom=true {}", &w[i..=w[..=j].rfind("]").unwrap()]);
     // find the end of the chunk list: first "]" that is followed by end or " gc"/" detach"/" inject"
     let mut end = fake.len();
-    for pat in ["] gc", "] detach=", "] inject="] {
+    for pat in ["] gc", "] detach=", "] inject=", "] detach_role="] {
         if let Some(k) = fake.find(pat) {
             end = end.min(k + 1);
         }
     }
     let (_, sched) = crate::c01::parse_witness(&fake[..end]);
     let mut env = Env::default();
-    env.gc = w.contains("] gc") || w.ends_with(" gc");
+    env.gc = w.contains("] gc") || w.contains(" gc ") || w.ends_with(" gc");
+    if let Some(k) = w.find(" detach_role=[") {
+        let rest = &w[k + 14..];
+        let nums: Vec<usize> = rest.split(|c: char| !c.is_ascii_digit()).filter(|s| !s.is_empty()).map(|s| s.parse().unwrap()).collect();
+        for pair in nums.chunks(2) {
+            if pair.len() == 2 {
+                env.detach_role.push((pair[0], pair[1] as u8));
+            }
+        }
+    }
     if let Some(k) = w.find(" detach=[(") {
         let rest = &w[k + 10..];
         let nums: Vec<usize> = rest.split(|c: char| !c.is_ascii_digit()).filter(|s| !s.is_empty()).take(2).map(|s| s.parse().unwrap()).collect();
